@@ -437,6 +437,7 @@ def swap0 {α} (l : List α) (i : Nat) (dflt : α) : List α :=
 inductive OutN where
   | ok (pmin : Pt) (fmin : Rat) (s : NM) (m : Rat)   -- margin of the final `rtol < ftol`
   | nmax                   -- "NMAX exceeded": diagnostic + exit
+  | shape                  -- malformed simplex / deltas vector: diagnostic + exit before any evaluation
   | fuel                   -- fuel exhausted (unreachable with fuel > NMAX)
   deriving Repr
 
@@ -505,32 +506,34 @@ def nmLoop (ftol : Rat) (ndim : Nat) : Nat → NM → OutN × List EvN
       let r := nmLoop ftol ndim n s'
       (r.1, tr ++ r.2)
 
-/-- the request is inside what the C++ defines: at least two vertices (`y[1]` is read), at
-    least one column (`fac1` divides by `ndim`), all rows of the length of the first -/
-def wellFormed (pp : List Pt) : Bool :=
-  decide (2 ≤ pp.length) && decide (0 < (pp.getD 0 []).length) &&
+/-- the shape guard at the top of `minimize(pp, func)`: `n + 1` vertices of `n >= 1` coordinates
+    each (`pp.size() >= 2 && pp.size() == pp[0].size() + 1`, all rows of the length of the first) -/
+def validSimplex (pp : List Pt) : Bool :=
+  decide (2 ≤ pp.length) && decide (pp.length = (pp.getD 0 []).length + 1) &&
   pp.all (fun r => decide (r.length = (pp.getD 0 []).length))
 
-/-- `minimize(pp, func)`: the general overload.  `none` = undefined behaviour in the C++. -/
+/-- `minimize(pp, func)`: the general overload.  A malformed simplex stops with a diagnostic before
+    the objective is evaluated (`.shape`, empty trace).  (The `Option` is kept for the aliased calls
+    whose argument itself is undefined in the C++.) -/
 def nelderMead (ftol : Rat) (pp : List Pt) (fuel : Nat) : Option (OutN × List EvN) :=
-  if wellFormed pp then
+  if validSimplex pp then
     let ndim := (pp.getD 0 []).length
     let s0 : NM := { p := pp, y := pp.map f, psum := getPsum rnd ndim pp, nfunc := 0 }
     let r := nmLoop rnd f ftol ndim fuel s0
     some (r.1, pp.map (fun v => (v, 1)) ++ r.2)
-  else none
+  else some (.shape, [])
 
 /-- `minimize(pp, func)` called on an EXISTING object `obj` (whatever earlier runs left in
     `current_simplex`, `y`, `nfunc`): the member function overwrites `mpts`, `ndim`,
     `current_simplex`, every `y[i]` (`y.resize(mpts)` then the loop over all `i < mpts`), and
     resets `nfunc = 0`; `psum` is a local.  Nothing of `obj` survives. -/
 def nelderMeadOn (obj : NM) (ftol : Rat) (pp : List Pt) (fuel : Nat) : Option (OutN × List EvN) :=
-  if wellFormed pp then
+  if validSimplex pp then
     let ndim := (pp.getD 0 []).length
     let s0 : NM := { obj with p := pp, y := pp.map f, psum := getPsum rnd ndim pp, nfunc := 0 }
     let r := nmLoop rnd f ftol ndim fuel s0
     some (r.1, pp.map (fun v => (v, 1)) ++ r.2)
-  else none
+  else some (.shape, [])
 
 /-- the initial simplex of the `deltas` overload: row 0 the starting point, row `i ≥ 1` the
     starting point with `deltas[i-1]` added to coordinate `i-1` -/
@@ -539,10 +542,10 @@ def simplexOf (start deltas : Pt) : List Pt :=
     (List.range start.length).map (fun j =>
       if i ≠ 0 ∧ j = i - 1 then rnd (start.getD j 0 + deltas.getD j 0) else start.getD j 0))
 
-/-- `minimize(starting_point, deltas, func)`; `none` if `deltas` is shorter than the point
-    (out-of-bounds read in the C++) -/
+/-- `minimize(starting_point, deltas, func)`; its guard: a non-empty point and exactly one
+    displacement per coordinate, else a diagnostic before any evaluation -/
 def nelderMeadDeltas (ftol : Rat) (start deltas : Pt) (fuel : Nat) : Option (OutN × List EvN) :=
-  if deltas.length < start.length then none
+  if start = [] ∨ deltas.length ≠ start.length then some (.shape, [])
   else nelderMead rnd f ftol (simplexOf rnd start deltas) fuel
 
 /-- `minimize(starting_point, delta, func)` -/
@@ -580,7 +583,7 @@ def argSimplex (rnd : Rat → Rat) (obj : NM) : Arg → Option (List Pt)
   | .ownDeltas ds =>
     match obj.p with
     | [] => none
-    | st :: _ => if ds.length < st.length then none else some (simplexOf rnd st ds)
+    | st :: _ => if ds.length ≠ st.length then some [] else some (simplexOf rnd st ds)   -- `[]`: rejected by the guard
   | .ownDelta d =>
     match obj.p with
     | [] => none
